@@ -46,6 +46,30 @@ def templates(cfg):
         return p.expr_table(d, d.a)
 
     T("col_overwritten", col_of_derived)
+    # a column looked up in a derived table through a reference of its ancestor: derived[t.x]
+    def getitem_filtered(p, t):
+        d = t >> p.filter(t.a > 0) >> p.rename({"b": "bb"})
+        return p.expr_table(d, d[t.b] + d[t.a])
+
+    T("getitem_col.filtered", getitem_filtered)
+
+    def getitem_sliced(p, t):
+        d = t >> p.arrange(t.a.nulls_last(), t.b.nulls_last(), t.p.nulls_last()) >> p.slice_head(2)
+        return p.expr_table(d, d[t.b])
+
+    T("getitem_col.sliced", getitem_sliced)
+
+    def getitem_single(p, t):
+        d = t >> p.filter(t.p)
+        return p.expr_table(d, d[t.a])
+
+    T("getitem_col.single_filtered", getitem_single)
+
+    def getitem_mixed(p, t):
+        d = t >> p.mutate(c=t.a + 1) >> p.filter(t.b.is_not_null())
+        return p.expr_table(d, p.when(d[t.a] > 0).then(d.c).otherwise(d[t.b]))
+
+    T("getitem_col.mixed_case", getitem_mixed)
     # pipelines whose only effect is on names / order: every target must show the same order
     T("perm_select", lambda p, t: t >> p.select(t.p, t.a, t.b))
     T("perm_select_filter", lambda p, t: t >> p.select(t.b, t.p, t.a) >> p.filter(t.a > 0))
